@@ -87,6 +87,9 @@ def run(tier, seed, meta, chk):
             add_violation("shared-envelope/sequential-text-differs", "the multithreaded build formats differently from the default build when run alone", {})
 
     def allowed(k, op, e, table):
+        # "format while holding a registry guard" must give the plain format text
+        if op.endswith("_guard_format"):
+            op = "format"
         return table.get((min(k, KMAX), op, e))
 
     # ---------------- history checker
@@ -142,7 +145,7 @@ def run(tier, seed, meta, chk):
             C["format_events_judged"] = C.get("format_events_judged", 0) + 1
             if found is None:
                 exp = {k: allowed(k, ev["op"], ev["e"], table) for k in range(lo, max(hi, lo) + 1)}
-                anyk = [k for k in range(KMAX + 1) if table.get((k, ev["op"], ev["e"])) == ev["h"]]
+                anyk = [k for k in range(KMAX + 1) if allowed(k, ev["op"], ev["e"], table) == ev["h"]]
                 kind = "stale-or-future-registry-state" if anyk else "text-matches-no-sequential-run"
                 add_violation(f"{label}/history/{kind}/{ev['op']}",
                               f"{ev['op']} on envelope #{ev['e']} in thread {ev['t']} returned text hash {ev['h']}; allowed k in [{lo},{hi}] gives {exp}; matches sequential k={anyk} (seed {tseed}, {threads} threads)",
@@ -193,9 +196,15 @@ def run(tier, seed, meta, chk):
                 rc = proc.poll()
                 if rc is None:
                     if time.time() - started > 30:
+                        # a ~50 ms trial still running after 30 s: take thread backtraces of THIS process
+                        bt = ""
+                        try:
+                            bt = subprocess.run(["gdb", "-batch", "-p", str(proc.pid), "-ex", "thread apply all bt 14"], stdout=subprocess.PIPE, stderr=subprocess.STDOUT, text=True, timeout=120).stdout
+                        except Exception as ex:  # noqa
+                            bt = f"gdb failed: {ex}"
                         proc.kill()
                         proc.wait()
-                        hangs.append((label, cmd, tseed, threads))
+                        hangs.append((label, cmd, tseed, threads, bt))
                     else:
                         still.append(item)
                     continue
@@ -223,23 +232,19 @@ def run(tier, seed, meta, chk):
     run_trials(trial, ref, "native", n_native, os.path.join(work, "native"))
     if trial_mt and ref_mt:
         run_trials(trial_mt, ref_mt, "shared-envelope", max(40, n_native // 4), os.path.join(work, "mt"))
-    # hung trials: re-run alone; if it hangs again, take thread backtraces with gdb
-    for label, cmd, tseed, threads in hangs[:3]:
-        proc = subprocess.Popen(cmd, env=chk.ENV, stdout=subprocess.DEVNULL, stderr=subprocess.DEVNULL)
-        try:
-            proc.wait(timeout=60)
-            notes.append(f"trial seed {tseed} exceeded the watchdog once but completed alone (inconclusive, not a violation)")
-            inconclusive = inconclusive or "a trial exceeded the wall-clock watchdog and did not hang again when re-run alone"
-        except subprocess.TimeoutExpired:
-            bt = subprocess.run(["gdb", "-batch", "-p", str(proc.pid), "-ex", "thread apply all bt 12"], stdout=subprocess.PIPE, stderr=subprocess.STDOUT, text=True, timeout=120).stdout
-            proc.kill()
-            waiting = bt.count("futex") + bt.count("pthread_cond") + bt.count("__lll_lock_wait") + bt.count("Once") + bt.count("Mutex")
-            nthreads = bt.count("Thread ")
-            if nthreads and waiting >= nthreads - 1:
-                add_violation(f"{label}/deadlock", f"trial hung twice with every thread parked in a lock/once wait (seed {tseed}, {threads} threads)", {"cmd": cmd, "gdb": bt[-6000:]})
-            else:
-                inconclusive = inconclusive or "a trial hung but the thread backtraces do not show a lock cycle"
-                notes.append(bt[-2000:])
+    # hung trials: classify from the thread backtraces taken while the process was hanging
+    for label, cmd, tseed, threads, bt in hangs[:5]:
+        blocks = [b for b in bt.split("\nThread ")[1:]]
+        waiting = [b for b in blocks if any(w in b for w in ("futex", "lock_contended", "__lll_lock", "pthread_join", "Condvar", "Barrier"))]
+        in_lock = [b for b in blocks if ("lock_contended" in b or "Mutex" in b or "Once" in b)]
+        C["hung_trials"] = C.get("hung_trials", 0) + 1
+        if blocks and len(waiting) == len(blocks) and in_lock:
+            frames = sorted({ln.split(" in ")[-1].split(" (")[0] for b in in_lock for ln in b.splitlines() if "bc_envelope" in ln})[:6]
+            add_violation(f"{label}/deadlock", f"trial hung (> 30 s) with every thread parked in a lock / join wait (seed {tseed}, {threads} threads); library frames: {frames}",
+                          {"cmd": cmd, "gdb": bt[-8000:]})
+        else:
+            inconclusive = inconclusive or "a trial exceeded the wall-clock watchdog but its thread backtraces do not show every thread parked on a lock (inconclusive, not a violation)"
+            notes.append(bt[-1500:])
     C["distinct_interleavings"] = len(fingerprints)
     C["distinct_k_assignments"] = len(kassign)
     cov["distinct_nontrivial"] = len(fingerprints)
